@@ -65,12 +65,13 @@ type Pending struct {
 }
 
 type Suspect struct {
-	Kind     string `json:"kind"` // overlap | overflow | reasked
-	ID       int    `json:"id"`
-	Key      string `json:"key"`
-	Against  []int  `json:"against,omitempty"` // ids in flight at arrival (same key for overlap, all for overflow)
-	InFlight int    `json:"in_flight"`
-	Limit    int    `json:"limit,omitempty"`
+	Kind     string  `json:"kind"` // overlap | overflow | reasked
+	Req      Pending `json:"req"`  // the arriving request
+	ID       int     `json:"id"`
+	Key      string  `json:"key"`
+	Against  []int   `json:"against,omitempty"` // ids in flight at arrival (same key for overlap, all for overflow)
+	InFlight int     `json:"in_flight"`
+	Limit    int     `json:"limit,omitempty"`
 	resolved bool
 }
 
@@ -203,13 +204,13 @@ func (g *Gated) handle(w http.ResponseWriter, r *http.Request) {
 	g.stats.MaxInFlight = max(g.stats.MaxInFlight, len(g.inflight))
 	g.stats.MaxKeysAtOnce = max(g.stats.MaxKeysAtOnce, g.distinctQuestionsLocked())
 	if len(same) > 0 {
-		g.suspects = append(g.suspects, &Suspect{Kind: "overlap", ID: req.ID, Key: req.Key, Against: same, InFlight: len(g.inflight)})
+		g.suspects = append(g.suspects, &Suspect{Kind: "overlap", Req: req.Pending, ID: req.ID, Key: req.Key, Against: same, InFlight: len(g.inflight)})
 	}
 	if g.limit > 0 && len(g.inflight) > g.limit {
-		g.suspects = append(g.suspects, &Suspect{Kind: "overflow", ID: req.ID, Key: req.Key, Against: everyone, InFlight: len(g.inflight), Limit: g.limit})
+		g.suspects = append(g.suspects, &Suspect{Kind: "overflow", Req: req.Pending, ID: req.ID, Key: req.Key, Against: everyone, InFlight: len(g.inflight), Limit: g.limit})
 	}
 	if _, asked := g.okKeys[req.Key]; asked {
-		g.suspects = append(g.suspects, &Suspect{Kind: "reasked", ID: req.ID, Key: req.Key, InFlight: len(g.inflight)})
+		g.suspects = append(g.suspects, &Suspect{Kind: "reasked", Req: req.Pending, ID: req.ID, Key: req.Key, InFlight: len(g.inflight)})
 	}
 	free := g.free
 	var delay time.Duration
@@ -498,6 +499,36 @@ func (g *Gated) EverOK(endpoint, question string) []string {
 		}
 	}
 	sort.Strings(out)
+	return out
+}
+
+// EverOKRequests is EverOK with the full request descriptions (start/end of range slices), one per key.
+func (g *Gated) EverOKRequests(endpoint, question string) []Pending {
+	g.mu.Lock()
+	defer g.mu.Unlock()
+	seen := map[string]bool{}
+	var out []Pending
+	for _, r := range g.all {
+		if r.Endpoint == endpoint && r.Question == question && !seen[r.Key] {
+			if _, ok := g.everOK[r.Key]; ok {
+				seen[r.Key] = true
+				out = append(out, r.Pending)
+			}
+		}
+	}
+	sort.Slice(out, func(i, j int) bool { return out[i].Key < out[j].Key })
+	return out
+}
+
+// Requests lists every request that ever arrived, by ID.
+func (g *Gated) Requests() []Pending {
+	g.mu.Lock()
+	defer g.mu.Unlock()
+	out := make([]Pending, 0, len(g.all))
+	for _, r := range g.all {
+		out = append(out, r.Pending)
+	}
+	sort.Slice(out, func(i, j int) bool { return out[i].ID < out[j].ID })
 	return out
 }
 
